@@ -480,6 +480,17 @@ func norm(v ssa.Value, depth int, seen map[ssa.Value]bool) string {
 			}
 			return "*" + s
 		case token.NOT:
+			// a negated comparison is the comparison with the opposite operator, in the same canonical form branch
+			// facts use (!(len(x) != 0) is (len(x) == 0))
+			inner := x.X
+			if _, isCmp := inner.(*ssa.BinOp); isCmp {
+				if b := inner.(*ssa.BinOp); func() bool { _, c := negOp(b.Op); return c }() {
+					return CondString(x, false)
+				}
+			}
+			if u, isNot := inner.(*ssa.UnOp); isNot && u.Op == token.NOT {
+				return norm(u.X, d, seen)
+			}
 			return "!" + norm(x.X, d, seen)
 		case token.ARROW:
 			return "<-" + norm(x.X, d, seen)
@@ -487,6 +498,9 @@ func norm(v ssa.Value, depth int, seen map[ssa.Value]bool) string {
 			return x.Op.String() + norm(x.X, d, seen)
 		}
 	case *ssa.BinOp:
+		if _, cmp := negOp(x.Op); cmp && isLenCall(x.X) {
+			return CondString(x, false)
+		}
 		return "(" + norm(x.X, d, seen) + " " + x.Op.String() + " " + norm(x.Y, d, seen) + ")"
 	case *ssa.Call:
 		return normCall(x, d, seen)
